@@ -256,21 +256,13 @@ func (l *linkServiceBase) dispatchData(pkt *defn.Pkt) {
 		return
 	}
 
-	// Only if from a local face (and therefore from a producer), dispatch to
-	// threads matching every prefix. We need to do this because producers do
-	// not attach PIT tokens to their data packets.
-	if l.Scope() == defn.Local {
-		for i, match := range fw.HashNameToAllPrefixFwThreads(pkt.Name) {
-			if match {
-				core.LogTrace(l, "Prefix dispatched local-origin Data packet to thread ", i)
-				dispatch.GetFWThread(i).QueueData(pkt)
-			}
+	// No usable PIT token (a producer on a local face, or a peer that does not echo
+	// PIT tokens): dispatch to the threads matching every prefix of the name, since a
+	// pending Interest with CanBePrefix lives in the thread of its own, shorter name.
+	for i, match := range fw.HashNameToAllPrefixFwThreads(pkt.Name) {
+		if match {
+			core.LogTrace(l, "Prefix dispatched token-less Data packet to thread ", i)
+			dispatch.GetFWThread(i).QueueData(pkt)
 		}
-		return
 	}
-
-	// Only exact-match for now (no CanBePrefix)
-	thread := fw.HashNameToFwThread(pkt.Name)
-	core.LogTrace(l, "Dispatched Data to thread ", thread)
-	dispatch.GetFWThread(thread).QueueData(pkt)
 }
